@@ -38,19 +38,23 @@ type vzAdv struct {
 	foreignVals tmconsensus.ValidatorSet
 	foreignKeys []gcrypto.Signer
 
-	expect       map[int]string // message id -> "C05:all-invalid" etc.
-	rotate       bool
-	nInject      int
-	replayCh     chan tmelink.ReplayedHeaderRequest
-	notes        []string
-	regossips    map[uint64]int
-	signedFor    map[string]map[int]map[string]bool
-	doubleQuorum bool
-	budget       int                                   // adversarial injections in this run
-	lead         uint64                                // how many heights the puppets may run ahead of the node's finalizations
-	chainPH      map[uint64]tmconsensus.ProposedHeader // the proposal that was committed, per height
-	abst         [2]map[int]bool                       // puppets that stay silent in this round (split rounds)
-	plan         int                                   // the puppets' outcome for this round: 0 undecided, 1 commit the first proposal, 2 nil quorum, 3 split (no quorum)
+	expect        map[int]string // message id -> "C05:all-invalid" etc.
+	rotate        bool
+	nInject       int
+	replayCh      chan tmelink.ReplayedHeaderRequest
+	notes         []string
+	regossips     map[uint64]int
+	said          map[uint64]map[string]tmcodec.ConsensusMessage
+	signedFor     map[string]map[int]map[string]bool
+	lastInc       int
+	resendPending bool
+	crashEnum     bool
+	doubleQuorum  bool
+	budget        int                                   // adversarial injections in this run
+	lead          uint64                                // how many heights the puppets may run ahead of the node's finalizations
+	chainPH       map[uint64]tmconsensus.ProposedHeader // the proposal that was committed, per height
+	abst          [2]map[int]bool                       // puppets that stay silent in this round (split rounds)
+	plan          int                                   // the puppets' outcome for this round: 0 undecided, 1 commit the first proposal, 2 nil quorum, 3 split (no quorum)
 }
 
 func (a *vzAdv) vs(h uint64) tmconsensus.ValidatorSet {
@@ -154,11 +158,15 @@ func (a *vzAdv) propose() {
 	ph := w.fx.NextProposedHeader([]byte(fmt.Sprintf("data-%d-%d-%d", a.h, a.r, prop)), prop)
 	ph.Round = a.r
 	ph.Header.Height = a.h // the fixture counts from 1; the chain may start higher
+	if a.h == w.cfg.initialHeight {
+		ph.Header.PrevAppStateHash = []byte("app-genesis") // what the application answered to InitChain
+	}
 	ph.Header.ValidatorSet = a.vs(a.h)
 	ph.Header.NextValidatorSet = a.vs(a.h + 1)
 	w.fx.RecalculateHash(&ph.Header)
 	w.fx.SignProposal(context.Background(), &ph, prop)
 	a.phs = append(a.phs, ph)
+	a.remember(a.h, a.r, 0, string(ph.Header.Hash), tmcodec.ConsensusMessage{ProposedHeader: &ph})
 	a.send(tmcodec.ConsensusMessage{ProposedHeader: &ph}, "ph", "valid", fmt.Sprintf("honest proposal %d/%d by %d hash %x", a.h, a.r, prop, trunc(string(ph.Header.Hash))))
 }
 
@@ -283,6 +291,7 @@ func (a *vzAdv) honestVote() bool {
 		sigs = append(sigs, gcrypto.SparseSignature{KeyID: vzKeyID(a.keyID(a.h, v)), Sig: a.signVote(kind, a.h, a.r, hash, v)})
 	}
 	cm, k := a.voteMsg(kind, a.h, a.r, string(a.vs(a.h).PubKeyHash), map[string][]gcrypto.SparseSignature{hash: sigs})
+	a.remember(a.h, a.r, 1+kind, hash, cm)
 	a.send(cm, k, "valid", fmt.Sprintf("honest %s %d/%d for %x by %v", k, a.h, a.r, trunc(hash), who))
 	a.maybeAdvance()
 	return true
@@ -718,6 +727,14 @@ func (a *vzAdv) nodeNext() uint64 {
 	return h
 }
 
+// remember keeps the latest honest message per height, round, kind and target (vote messages are cumulative).
+func (a *vzAdv) remember(h uint64, r uint32, kind int, hash string, cm tmcodec.ConsensusMessage) {
+	if a.said[h] == nil {
+		a.said[h] = map[string]tmcodec.ConsensusMessage{}
+	}
+	a.said[h][fmt.Sprintf("%06d/%d/%x", r, kind, hash)] = cm
+}
+
 // regossip resends, as any peer would, the decided proposal and the full commit certificate of the
 // first height the node is missing.
 func (a *vzAdv) regossip() {
@@ -726,11 +743,64 @@ func (a *vzAdv) regossip() {
 	if !ok {
 		return
 	}
+	// first everything the puppets said in the earlier rounds of that height (a node that is still in
+	// round 0 can only follow the network round by round), then the decision
+	var keys []string
+	for k := range a.said[h] {
+		keys = append(keys, k)
+	}
+	sort.Strings(keys)
+	for _, k := range keys {
+		var r uint32
+		fmt.Sscanf(k, "%06d", &r)
+		if r >= ch.Proof.Round {
+			continue
+		}
+		cm := a.said[h][k]
+		kind := "ph"
+		if cm.PrevoteProof != nil {
+			kind = "prevote"
+		} else if cm.PrecommitProof != nil {
+			kind = "precommit"
+		}
+		a.send(cm, kind, "valid", fmt.Sprintf("regossip of round %d/%d traffic (%s)", h, r, kind))
+	}
 	if ph, ok := a.chainPH[h]; ok {
 		a.send(tmcodec.ConsensusMessage{ProposedHeader: &ph}, "ph", "valid", fmt.Sprintf("regossip of the decided proposal %d/%d", h, ph.Round))
 	}
 	cm, k := a.voteMsg(1, h, ch.Proof.Round, ch.Proof.PubKeyHash, ch.Proof.Proofs)
 	a.send(cm, k, "valid", fmt.Sprintf("regossip of the commit certificate of %d/%d", h, ch.Proof.Round))
+}
+
+// resendRound sends again everything the puppets have said in their current round.
+func (a *vzAdv) resendRound() {
+	for i := range a.phs {
+		ph := a.phs[i]
+		a.send(tmcodec.ConsensusMessage{ProposedHeader: &ph}, "ph", "valid", fmt.Sprintf("resend of proposal %d/%d", a.h, a.r))
+	}
+	for kind := 0; kind < 2; kind++ {
+		var hashes []string
+		for hash := range a.voted[kind] {
+			hashes = append(hashes, hash)
+		}
+		sort.Strings(hashes)
+		for _, hash := range hashes {
+			var who []int
+			for v := range a.voted[kind][hash] {
+				who = append(who, v)
+			}
+			sort.Ints(who)
+			var sigs []gcrypto.SparseSignature
+			for _, v := range who {
+				sigs = append(sigs, gcrypto.SparseSignature{KeyID: vzKeyID(a.keyID(a.h, v)), Sig: a.signVote(kind, a.h, a.r, hash, v)})
+			}
+			if len(sigs) == 0 {
+				continue
+			}
+			cm, k := a.voteMsg(kind, a.h, a.r, string(a.vs(a.h).PubKeyHash), map[string][]gcrypto.SparseSignature{hash: sigs})
+			a.send(cm, k, "valid", fmt.Sprintf("resend of %s %d/%d for %x by %v", k, a.h, a.r, trunc(hash), who))
+		}
+	}
 }
 
 func (a *vzAdv) injected() int {
@@ -748,10 +818,36 @@ func (a *vzAdv) actions() []vsimcore.Action {
 	if inflight > 40 {
 		return nil // let the node catch up with what is already on the wire
 	}
+	w.mu.Lock()
+	inc, down := a.nd.inc, a.nd.down || a.nd.dead
+	w.mu.Unlock()
+	if inc != a.lastInc && !down {
+		// a new incarnation is up: peers notice and resend what it may have missed
+		if a.lastInc != 0 {
+			a.regossips = map[uint64]int{}
+			a.resendPending = true
+			if a.crashEnum && inc == 2 && s.Pct("second-crash", 25) {
+				w.crashAtWrite = a.nd.disk.writes + 1 + s.Choose("second-crash-after", 40)
+				w.s.Logf("adv: a second crash is armed at write %d", w.crashAtWrite)
+			}
+		}
+		a.lastInc = inc
+		a.replayCh = a.nd.replayCh
+	}
+	if a.resendPending && !down && inflight == 0 {
+		acts = append(acts, vsimcore.Action{Name: "adv: resend current round", Weight: 6, Do: func() { a.resendPending = false; a.resendRound() }})
+	}
 	next := a.nodeNext()
-	if next < a.h && inflight == 0 && a.regossips[next] < 4 {
-		// a few times per height, and only on a quiet wire, so that the node's timers get their turn
-		acts = append(acts, vsimcore.Action{Name: "adv: regossip", Weight: 4, Do: func() { a.regossips[next]++; a.regossip() }})
+	// a few times per position of the node (height, voting height/round), and only on a quiet wire,
+	// so that the node's timers get their turn
+	rk := next * 1_000_000
+	w.mu.Lock()
+	if n := len(a.nd.disk.nhr); n > 0 {
+		rk += a.nd.disk.nhr[n-1][0]*1000 + a.nd.disk.nhr[n-1][1]
+	}
+	w.mu.Unlock()
+	if next < a.h && inflight == 0 && a.regossips[rk] < 4 {
+		acts = append(acts, vsimcore.Action{Name: "adv: regossip", Weight: 4, Do: func() { a.regossips[rk]++; a.regossip() }})
 	}
 	if a.h < w.cfg.initialHeight+w.cfg.heights && a.h <= next+a.lead {
 		if len(a.phs) == 0 || (len(a.phs) < 2 && s.Steps%7 == 0) {
@@ -773,6 +869,17 @@ func (a *vzAdv) actions() []vsimcore.Action {
 func runNode(s *vsimcore.Sim, p vsimcore.Params) vsimcore.RunInfo {
 	var info vsimcore.RunInfo
 	cfg := vzConfig{oracles: vzOracleSet(p), initialHeight: 1, maxSteps: p.Int("max_steps", 6000)}
+	// Crash enumeration (H-CRASH): a batch of consecutive seeds shares one scripted history
+	// (seed / crash_points) and walks the crash position through every store write
+	// (seed % crash_points + 1); a second crash is sampled during recovery in some runs.
+	crashEnum := p.Bool("crash_enum", false)
+	crashK, crashK2 := 0, 0
+	if crashEnum {
+		K := p.Int("crash_points", 120)
+		crashK = 1 + s.ChooseFixed("crash-point", K, int(s.Seed%uint64(K)))
+		s.Reseed(s.Seed/uint64(K) + 0x5eed)
+		cfg.parkStores = true
+	}
 	cfg.nVal = 4 + s.Choose("validators", 3)
 	cfg.heights = uint64(2 + s.Choose("heights", 3))
 	if s.Pct("initial-height", 25) {
@@ -807,13 +914,20 @@ func runNode(s *vsimcore.Sim, p vsimcore.Params) vsimcore.RunInfo {
 	if s.Pct("f-early-timer", 60) {
 		cfg.rEarlyTimer = 2 + s.Choose("r", 30)
 	}
+	if crashEnum {
+		cfg.rEquivocate = 0 // honest traffic only: the final chain is a function of the script
+	}
 	w := newVzWorld(s, cfg)
 	w.replayEnabled = true
+	if crashEnum {
+		w.crashNode, w.crashAtWrite = 0, crashK
+	}
 	adv := &vzAdv{w: w, h: cfg.initialHeight, voted: [2]map[string]map[int]bool{{}, {}}, chain: map[uint64]tmconsensus.CommittedHeader{},
-		chainPH: map[uint64]tmconsensus.ProposedHeader{}, signedFor: map[string]map[int]map[string]bool{}, regossips: map[uint64]int{}, lead: uint64([]int{0, 1, 10}[s.ChooseW("adv-lead", []int{6, 3, 2})]), valsets: map[uint64]tmconsensus.ValidatorSet{}, expect: map[int]string{}, rotate: cfg.rotate}
+		chainPH: map[uint64]tmconsensus.ProposedHeader{}, said: map[uint64]map[string]tmcodec.ConsensusMessage{}, signedFor: map[string]map[int]map[string]bool{}, regossips: map[uint64]int{}, lead: uint64([]int{0, 1, 10}[s.ChooseW("adv-lead", []int{6, 3, 2})]), valsets: map[uint64]tmconsensus.ValidatorSet{}, expect: map[int]string{}, rotate: cfg.rotate}
 	w.adv = adv
 	adv.budget = []int{8, 30, 100, 400}[s.Choose("adv-budget", 4)]
 	adv.doubleQuorum = s.Pct("adv-double-quorum", 12)
+	adv.crashEnum = crashEnum
 	// a self-consistent validator set of keys that are not validators
 	fv := w.foreignPrivVals(cfg.nVal)
 	adv.foreignVals, _ = tmconsensus.NewValidatorSet(fv.Vals(), w.fx.HashScheme)
@@ -828,13 +942,21 @@ func runNode(s *vsimcore.Sim, p vsimcore.Params) vsimcore.RunInfo {
 		}
 		info.Nontrivial = reached >= 1
 		info.Extra = map[string]int{"heights_finalized": reached}
+		if crashEnum {
+			// a crash run is non-trivial when the process really died inside the history and was restarted
+			info.Nontrivial = reached >= 1 && w.nodes[0].inc > 1
+			info.Extra["restarts"] = w.nodes[0].inc - 1
+		}
 		nf := 0
 		for _, v := range s.Faults {
 			nf += v
 		}
 		info.States = []string{fmt.Sprintf("v%d/h%d/f%d/rot%t", cfg.nVal, reached, min(nf/4, 6), cfg.rotate)}
+		if crashEnum {
+			info.States = []string{fmt.Sprintf("v%d/h%d/crash@%d/inc%d", cfg.nVal, reached, crashK, w.nodes[0].inc)}
+		}
 		info.Sample = map[string]any{"harness": "node", "validators": cfg.nVal, "powers": cfg.powers, "initial_height": cfg.initialHeight,
-			"heights_finalized_by_node": reached, "chain_heights": len(adv.chain), "faults": s.Faults, "adversary_messages": adv.notes}
+			"heights_finalized_by_node": reached, "chain_heights": len(adv.chain), "crash_at_write": crashK, "incarnations": w.nodes[0].inc, "faults": s.Faults, "adversary_messages": adv.notes}
 	}
 	s.Bubble(func() {
 		w.rootCtx, w.rootCancel = context.WithCancel(context.Background())
@@ -851,11 +973,38 @@ func runNode(s *vsimcore.Sim, p vsimcore.Params) vsimcore.RunInfo {
 		done := func() bool {
 			w.mu.Lock()
 			defer w.mu.Unlock()
+			if crashEnum {
+				// what counts is what the node holds durably, in an incarnation that is up
+				return nd.disk.fins[target] != "" && !nd.down && !nd.dead && len(w.inflight) == 0 && (w.crashAtWrite <= nd.disk.writes)
+			}
 			return nd.fin[target] != "" && len(w.inflight) == 0
 		}
 		stalled = w.run(done, adv.actions)
 		_ = stalled
+		w.finalChecks()
 		info.SimNs = int64(s.SimTime())
+		if crashEnum {
+			w.mu.Lock()
+			crashed := nd.inc > 1 && !nd.down && !nd.dead
+			w.mu.Unlock()
+			chain := map[uint64]string{}
+			for h, ch := range adv.chain {
+				chain[h] = string(ch.Header.Hash)
+			}
+			if len(chain) > 0 && (w.endReason == "done" || w.endReason == "quiescent") {
+				// nothing is left to do: the node must hold every height the puppets have decided
+				w.orc.checkRecovered(nd, chain, cfg.initialHeight+uint64(len(chain))-1, crashed)
+			} else if crashed {
+				s.Probe("recovery_inconclusive_" + w.endReason)
+			}
+			if crashed {
+				s.Probe("crash_then_restart")
+			}
+			if !crashed && nd.inc == 1 {
+				s.Probe("crash_point_beyond_history")
+			}
+			_ = crashK2
+		}
 		fill()
 		s.Checkpoint(info)
 		s.Freeze()
